@@ -12,7 +12,7 @@ PROPERTY = "C17"
 LEVEL = "proof"
 TRUSTED = ["numpy / scipy.sparse models", "finite-sum meta-lemma 4 (row action = sum of per-edge contributions)",
            "A5 at a zero right-hand side: the factorised solve returns mu = 0 (linearity of forward/back substitution)"]
-ASSUMPTIONS = ["valid_mesh (see C03)", "exactness under floating-point rounding is not decided (A1); bounded native run in the thorough tier",
+ASSUMPTIONS = ["valid_mesh (see C03)", "exactness under floating-point rounding is not decided (A1); bounded native runs (one device in the quick tier, more in the thorough tier)",
                "the time-step clause (dt grows to dt_max when delta = 0) is the C12 window rule at delta = 0: min(0.5(dt + dt_init*1e10), dt_max), "
                "which equals dt_max iff dt_init*1e10 >= 2 dt_max - dt (true for the defaults; stated, not assumed silently)"]
 EXPLANATION = "fixpoint of the real step function and of the real operators at psi=1, mu=0, A=0, epsilon=1, zero currents"
@@ -93,8 +93,19 @@ def run_operators(mutate=None):
     return dict(obls=obls, paths=n, sources=[L.info()], consistent=sym.consistent())
 
 
+def run_native_quick(mutate=None):
+    """BOUNDED stand-in executed also in the quick tier (one device): undriven real runs at half the explicit-Euler stability limit, screening off
+    and on, must stay at psi = 1 up to the recorded ulp-level residue"""
+    def body():
+        r = bounded_native(0, n=1)
+        check("C17.bounded.stable_undriven_runs_stay_stationary[1 device, screening off/on]", z3.BoolVal(not r.get("violations_detail")), note=str(r.get("violations_detail", [])[:2]))
+    obls, n = explore(body)
+    return dict(obls=obls, paths=n, sources=[], consistent=True)
+
+
 def units():
-    return [Unit("euler_fixpoint", "tdgl.solver.solver:TDGLSolver.solve_for_psi_squared", run_step, props=["C17"], timeout=300),
+    return [Unit("undriven runs [bounded]", "tdgl.solve (real runs)", run_native_quick, props=["C17"], timeout=600, kind="bounded"),
+            Unit("euler_fixpoint", "tdgl.solver.solver:TDGLSolver.solve_for_psi_squared", run_step, props=["C17"], timeout=300),
             Unit("operators_on_uniform_state", "tdgl.finite_volume.operators:MeshOperators.get_supercurrent / build_* / set_link_exponents", run_operators, props=["C17"], timeout=600)]
 
 
@@ -104,7 +115,10 @@ def replay_scope(unit, obl):
 
 
 def replay(unit, obl):
-    return bounded_native(0, n=3)
+    r = bounded_native(0, n=3)
+    if r.get("violations_detail"):
+        r["failing_input"] = r["violations_detail"][0]
+    return r
 
 
 def bounded_native(seed=0, n=4):
@@ -201,7 +215,7 @@ MUTANTS = [
 
 def thorough(seed=0):
     from pyvc import harness
-    summary, broken = harness.run_mutants("checks.c17", units(), MUTANTS)
+    summary, broken = harness.run_mutants("checks.c17", [u for u in units() if "bounded" not in u.name], MUTANTS)
     bnd = bounded_native(seed)
     vio = []
     if bnd.get("violations_detail"):
